@@ -215,7 +215,7 @@ func (f *evm) Exec(r *hx.Run, op []string) string {
 			hx.Hex(param.ToContractAddress), hx.Hex([]byte(param.Method)), hx.Hex(param.Args)}, ":")
 	}
 	f.depositOracle(r, d, st, hdrs, res)
-	return res
+	return res + " " + f.siblings(r, d, st, hdrs, proof, res)
 }
 
 func sameTable(a, b string) bool {
@@ -650,7 +650,7 @@ func (f *evm) Gen(r *hx.Run) {
 			} else if conf == d.btw {
 				confClass = "exact"
 			}
-			verdict := res
+			verdict := strings.SplitN(res, " ", 2)[0]
 			if strings.HasPrefix(res, "ok:") {
 				verdict = "ok"
 			}
